@@ -10,6 +10,10 @@ A_NOTE = ("Trusted: std::sync::mpsc and the 30-line native transport (the simula
           "hash-iteration order pinned by the hooks; scenario templates over a stated grid.")
 
 CHECKS = {
+    "C05": dict(engine="sim", category="model_checking", design="4, 7/C05",
+                technique="stateless model checking of the real runtime with a select-conformance monitor (hooked entry/exit snapshots judged by a host reference of the documented select semantics)",
+                text="select_mix/fanout_race/late_await/typed_mail scenarios under every schedule within the deviation bound including virtual-clock advances; every handle_select entry is judged: winning source = first ready in written order, message = earliest of its type accepted by its filter, value = the message (never the verdict) / nil / awaited result, mailbox afterwards = before minus that message in order, a parked select had nothing ready, timeouts not early; plus completion conservation and program-level accounting of selected + drained + remaining messages.",
+                note=A_NOTE + " Filters come from a closed family with host-known verdicts."),
     "C06": dict(engine="sim", category="model_checking", design="4, 7/C06",
                 technique="stateless model checking of the real runtime with heap-accounting invariants after every worker action, down to one instruction per time slice",
                 text="Binary-churn scenarios under every schedule within the deviation bound and every quantum in {1,2,3,1000}: after every worker action the refcount<=>reachability invariant, freed/free-list consistency, and at quiescence no unreachable unreclaimed slot; result bytes equal host-computed bytes; the repository's own debug assertions are live.",
